@@ -16,7 +16,7 @@ def run(chk):
     chk.rule = ("TLC enumerates every tag stream (<= MaxTags tags over <= MaxItems comment/code/string items) of Pairing.tla "
                 "and checks err = none <=> WellNested; every unbalanced file (a start never closed, an end with nothing "
                 "open, at any depth) is rendered in the comment forms of each of the 39 suffixes, alone and among healthy "
-                "files, and run in scan, list and diff mode; non-trivial = every unbalanced file")
+                "files, with one-line and two-line start tags, with and without a final line terminator, and run in scan, list, glob and diff mode; non-trivial = every unbalanced file")
     cfg = rc.set_consts("MC_C03", MaxItems=4 if quick else 5, MaxTags=4 if quick else 6)
     res = vlib.run_tlc("MC_C03", cfg_text=cfg, timeout=3000, heap="12g")
     chk.add_tlc(res, "MC_C03 (Pairing)")
@@ -26,13 +26,30 @@ def run(chk):
     batch, meta = [], {}
     k = 0
     small = [c for c in bad if sum(len(i["tags"]) for i in c["items"]) <= 2 and len(c["items"]) <= 2]
+    # critical streams: the error hinges on a single tag (dropping one tag would make the file well nested), so a
+    # scanner that loses one tag anywhere -- first or last of its comment, glued to its neighbour or not -- accepts it
+    def tags_of(c):
+        return [t for it in c["items"] for t in it["tags"]]
+
+    def balanced(ts):
+        d = 0
+        for t in ts:
+            d += 1 if t == "S" else -1
+            if d < 0:
+                return False
+        return d == 0
+    critical = [c for c in bad if len(tags_of(c)) <= 3 and len(c["items"]) <= (3 if quick else 4)
+                and any(balanced(tags_of(c)[:k] + tags_of(c)[k + 1:]) for k in range(len(tags_of(c))))]
+    chk.notes["critical_streams"] = len(critical)
     for ext in langs.ALL_SUFFIXES:
         pool = [(c, False, e) for c in small for e in range(4)] + [(c, True, 0) for c in small] + \
+               [(c, b, None) for c in critical for b in (False, True)] + \
                [(c, j % 5 == 4, None) for j, c in enumerate(bad[:per_ext])]
         for j, (c, bare, endsp) in enumerate(pool):
             if ext in ("md", "markdown") and bare:
                 continue
-            r = langs.render(c["items"], ext, j, bare=bare, endsp=endsp)
+            # also: quoted attribute values continuing on the next comment line; files that end without a line terminator
+            r = langs.render(c["items"], ext, j, bare=bare, endsp=endsp, mlattr=(j % 3 == 1 and not bare), no_eol=(j % 4 >= 2))
             files = {r["name"]: r["text"]}
             if j % 2:
                 files.update(HEALTHY)
